@@ -332,7 +332,15 @@ def run_shard(sh):
                   for k in rng.sample(['k', 'j', 'z'], rng.randint(0, 2))}
             r = rng.random()
             tag = 'same'
-            if r < 0.3:
+            if r < 0.08:
+                # the same values as instances of plain subclasses (str/int/float/list/dict/tuple subclasses,
+                # OrderedDict): JSON-equal, so the same entry
+                from .c18 import subclassed
+                import collections
+                a2 = [subclassed(x, rng) for x in a1]
+                k2 = collections.OrderedDict((k, subclassed(v, rng)) for k, v in reversed(list(k1.items())))
+                tag = 'roundtrip'
+            elif r < 0.3:
                 a2, k2 = json.loads(json.dumps(a1)), json.loads(json.dumps(k1))   # round trip: equal
                 if rng.random() < 0.5 and k2:
                     k2 = dict(reversed(list(k2.items())))
